@@ -189,7 +189,7 @@ Registrar R_C01(&P_C01);
 // ============================================================================================ C02
 std::vector<Fn> MUL;
 struct MulInt { Fn fT, Tf, eq; };
-MulInt MULI[8];
+MulInt MULI[N_INT];
 void j_mul(Ctx & c, int64_t a, int64_t b, int64_t)
   {
   if(!model_finite(a) || !model_finite(b)) return;
@@ -278,7 +278,7 @@ void c02_init()
   {
   MUL_SELF[0] = resolve("muleq_self"); MUL_SELF[1] = resolve("muleq_ref_self"); ks_init();
   MUL = { resolve("mul_ff"), resolve("muleq_ff"), resolve("fn_mul_ff") };
-  for(int i = 0; i < 8; ++i) { std::string t = INT_TYPES[i].tag; MULI[i] = { resolve(("mul_f" + t).c_str()), resolve(("mul_" + t + "f").c_str()), resolve(("muleq_f" + t).c_str()) }; }
+  for(int i = 0; i < N_INT; ++i) { std::string t = INT_TYPES[i].tag; MULI[i] = { resolve(("mul_f" + t).c_str()), resolve(("mul_" + t + "f").c_str()), resolve(("muleq_f" + t).c_str()) }; }
   }
 extern Property P_C02;
 int64_t mul_complement(Rng & r, int64_t a, i128 T)
@@ -331,9 +331,9 @@ void c02_run(Ctx & c)
     c.run_check(M, a, b);
     }
   // scalar multiply for the eight integral types
-  for(int ti = 0; ti < 8; ++ti)
+  for(int ti = 0; ti < N_INT; ++ti)
     {
-    const Check & K = P_C02.checks[1 + ti]; const IntType & t = INT_TYPES[ti];
+    const Check & K = P_C02.checks[ti < 8 ? 1 + ti : 11 + (ti - 8)]; const IntType & t = INT_TYPES[ti];
     idx = 0;
     if(t.bits <= 16)
       { // every value of the type x small lattice (quick: 8 bit types complete, 16 bit strided by 7 plus limits)
@@ -361,7 +361,8 @@ Property P_C02 = { "C02", c02_init, c02_run,
     { "mul_i8", j_mul_int<0>, "fixed*int8, int8*fixed, *=; a raw, b scalar" }, { "mul_i16", j_mul_int<1>, "" }, { "mul_i32", j_mul_int<2>, "" }, { "mul_i64", j_mul_int<3>, "" },
     { "mul_u8", j_mul_int<4>, "" }, { "mul_u16", j_mul_int<5>, "" }, { "mul_u32", j_mul_int<6>, "" }, { "mul_u64", j_mul_int<7>, "b holds the uint64 bit pattern" },
     { "mul_self", j_mul_self, "x *= x on one object (directly and through two references); a raw" },
-    { "mul_const", j_mul_const, "a*K, K*a, a*=K with a literal integer K at the call site (2,3,4,-1,0,65536,2^20,uint16 8,1000000007,uint64 2^63+1); a raw, b index of K" } },
+    { "mul_const", j_mul_const, "a*K, K*a, a*=K with a literal integer K at the call site (2,3,4,-1,0,65536,2^20,uint16 8,1000000007,uint64 2^63+1); a raw, b index of K" },
+    { "mul_ll", j_mul_int<8>, "long long scalar (a distinct type from int64_t)" }, { "mul_ull", j_mul_int<9>, "unsigned long long scalar; b holds the bit pattern" } },
   { "constant-scalar-multiplier", "aliased-multiply", "product-fits-int64", "product-outside-range", "product-between", "negative-inexact", "scalar-in-range", "scalar-out-of-range", "scalar-beyond-2^31", "u64-scalar>=2^63" },
   "raw product within 2^40 of the int64 frontier or not fitting int64 (fixed*fixed); scalar product within 2^32 of 2^63 or out of range; distinct by (a,b[,type])", {}, {} };
 Registrar R_C02(&P_C02);
@@ -369,7 +370,7 @@ Registrar R_C02(&P_C02);
 // ============================================================================================ C03
 std::vector<Fn> DIV;
 struct DivInt { Fn fT, eq; };
-DivInt DIVI[8];
+DivInt DIVI[N_INT];
 void j_div(Ctx & c, int64_t a, int64_t b, int64_t)
   {
   if(!model_finite(a) || !model_finite(b)) return;
@@ -446,7 +447,7 @@ void c03_init()
   {
   DIV_SELF[0] = resolve("diveq_self"); DIV_SELF[1] = resolve("diveq_ref_self"); ks_init();
   DIV = { resolve("div_ff"), resolve("diveq_ff"), resolve("fn_div_ff") };
-  for(int i = 0; i < 8; ++i) { std::string t = INT_TYPES[i].tag; DIVI[i] = { resolve(("div_f" + t).c_str()), resolve(("diveq_f" + t).c_str()) }; }
+  for(int i = 0; i < N_INT; ++i) { std::string t = INT_TYPES[i].tag; DIVI[i] = { resolve(("div_f" + t).c_str()), resolve(("diveq_f" + t).c_str()) }; }
   }
 extern Property P_C03;
 void c03_run(Ctx & c)
@@ -481,9 +482,9 @@ void c03_run(Ctx & c)
       }
     c.run_check(D, a, b);
     }
-  for(int ti = 0; ti < 8; ++ti)
+  for(int ti = 0; ti < N_INT; ++ti)
     {
-    const Check & K = P_C03.checks[1 + ti]; const IntType & t = INT_TYPES[ti];
+    const Check & K = P_C03.checks[ti < 8 ? 1 + ti : 11 + (ti - 8)]; const IntType & t = INT_TYPES[ti];
     idx = 0;
     if(t.bits <= 16)
       {
@@ -506,7 +507,8 @@ Property P_C03 = { "C03", c03_init, c03_run,
     { "div_i8", j_div_int<0>, "fixed/int8 and /=; a raw, b scalar" }, { "div_i16", j_div_int<1>, "" }, { "div_i32", j_div_int<2>, "" }, { "div_i64", j_div_int<3>, "" },
     { "div_u8", j_div_int<4>, "" }, { "div_u16", j_div_int<5>, "" }, { "div_u32", j_div_int<6>, "" }, { "div_u64", j_div_int<7>, "b holds the uint64 bit pattern" },
     { "div_self", j_div_self, "x /= x on one object (directly and through two references); a raw" },
-    { "div_const", j_div_const, "a/K, a/=K with a literal integer K at the call site; a raw, b index of K" } },
+    { "div_const", j_div_const, "a/K, a/=K with a literal integer K at the call site; a raw, b index of K" },
+    { "div_ll", j_div_int<8>, "long long divisor" }, { "div_ull", j_div_int<9>, "unsigned long long divisor; b holds the bit pattern" } },
   { "constant-scalar-divisor", "aliased-divide", "zero-divisor", "dividend<2^31", "dividend>=2^31", "divisor=+-1raw", "preshift-low63-zero", "scalar-zero-divisor", "scalar-divisor", "scalar-divisor=-1", "u64-divisor>=2^63" },
   "zero divisor, divisor -1, |a| >= 2^46 raw (at or beyond the pre-shift frontier), scalar divisor 0/-1/beyond 2^31; distinct by (a,b[,type])", {}, {} };
 Registrar R_C03(&P_C03);
